@@ -488,6 +488,10 @@ class DistSystem:
                 if not np.array_equal(got, o, equal_nan=True):
                     v.append((self._fp(after + 'differs-from-oneshot/' + names[j]), '%s: %s after %d rows fed by this history differs from the one-batch result: got %s one-shot %s'
                               % (cfg, names[j], i, np.asarray(got).ravel()[:6].tolist(), np.asarray(o).ravel()[:6].tolist())))
+            elif names[j] == 'pooled_covariance_inv' and not (np.isfinite(one[1]).all() and np.linalg.cond(one[1]) < 1e3):
+                # the pseudo-inverse is discontinuous at rank-deficient / ill-conditioned covariances: rounding-level differences
+                # of the covariance (non-representable pool) legitimately give very different inverses; counted, not compared
+                self.counters['pinv_ill_conditioned_not_compared'] = self.counters.get('pinv_ill_conditioned_not_compared', 0) + 1
             else:
                 with np.errstate(all='ignore'):
                     nanbad = (np.isnan(got) != np.isnan(o)).any()
